@@ -17,7 +17,7 @@ OBS = [  # id, entry, enforce, replace, extra
 ]
 FUC = [o[0] for o in OBS] + ['Interpreter_Moda', 'Interpreter_DoMultiplication']
 def ob(i, e, r, x):
-    d = {'id': i, 'entry': e, 'enforce': [i], 'replace': r, 'unwind': 9, 'timeout': 300, 'expect_classes': {'postcondition': 1}, 'min_obligations': 5, 'checks': [], 'standard_checks': False, 'object_bits': 12}
+    d = {'id': i, 'entry': e, 'enforce': [i], 'replace': r, 'unwind': 9, 'timeout': 1200, 'expect_classes': {'postcondition': 1}, 'min_obligations': 5, 'checks': [], 'standard_checks': False, 'object_bits': 12}
     d.update(x); return d
 PLAN = {
     'property': 'C04',
